@@ -25,6 +25,9 @@ ASSUME /\ CompactOK(12, 8) /\ PrintT(<<"CFG", 12, 8, "compact_promo64">>)
 \* a declared maximum length selects the type that carries every length argument: limits on both sides of
 \* the 8-bit boundary, exercised with arrays filled to exactly the limit
 ASSUME \A m \in {"max255", "max256", "max257"} : Admissible(12, 8) /\ PrintT(<<"CFG", 12, 8, m>>)
+\* what the header documents when nothing, or only the width, is requested: 12 bits, 32-bit slots
+ASSUME Admissible(12, 32) /\ PrintT(<<"CFG", 12, 32, "defaults">>)
+ASSUME \A b \in {7, 24} : Admissible(b, 32) /\ PrintT(<<"CFG", b, 32, "defslot">>)
 ASSUME Cardinality(Configs) >= 80
 
 Cap == 6
